@@ -14,7 +14,7 @@
     NOT covered (stated in the evidence on every run): every other memory location. *)
 From Coq Require Import ZArith List Bool Arith.
 From Texel Require Import Workers.Workers Workers.Race Workers.RaceProofs Workers.Access Workers.AccessProofs
-  Workers.WorkersInv Workers.HandshakeProofs.
+  Workers.WorkersInv Workers.HandshakeProofs Workers.HelperReads Workers.HelperReadProofs Workers.HelperReadExample.
 Import ListNotations.
 
 (** the executable one-pass detector used on recorded traces decides the relational definition *)
@@ -64,8 +64,40 @@ Theorem C09_model_drf_partial : forall N parent ls tr i j a b,
 Proof. exact model_drf_partial. Qed.
 Print Assumptions C09_model_drf_partial.
 
-(** full statement for the modelled locations (not proved: the ordering of the helpers' reads of
-    option values / TT geometry against the engine thread's writes goes through the START and
-    STOP_ACK message edges of the whole communicator tree; it is checked on recorded traces) *)
+(** the helpers' reads: in the single-level communicator tree (every helper thread a child of the
+    engine thread - the tree WorkerThread::createWorkers (maxChildren = 4) builds for Threads <= 5,
+    i.e. up to 4 helper threads), for every number of helpers and every schedule, every access of a helper thread to the option values / table
+    geometry and every conflicting access of another thread are ordered by happens-before:
+    write -> engine thread -> START_SEARCH through the helper's mailbox mutex -> read, and
+    read -> STOP_ACK through the engine thread's mailbox mutex -> barrier -> write *)
+Theorem C09_helper_reads_ordered : forall N parent, (forall c, helper N c -> parent c = Some 0) ->
+  forall ls tr i j a b,
+  trace_of N parent true xinit ls = Some tr ->
+  i < j -> at_ tr i = Some a -> at_ tr j = Some b -> conflictb a b = true ->
+  sel opt_or_tt a = true -> (helper N (ev_tid a) \/ helper N (ev_tid b)) -> hb tr i j.
+Proof. exact helper_reads_ordered. Qed.
+Print Assumptions C09_helper_reads_ordered.
+
+(** ... hence no data race at all on the modelled locations *)
+Theorem C09_model_drf_single_level : forall N parent, (forall c, helper N c -> parent c = Some 0) ->
+  forall ls tr, trace_of N parent true xinit ls = Some tr -> ~ race tr.
+Proof. exact model_drf_flat. Qed.
+Print Assumptions C09_model_drf_single_level.
+
+(** non-vacuity: a schedule in which a helper reads between writes of both writers *)
+Theorem C09_helper_reads_example :
+  (forall c, helper 1 c -> par1 c = Some 0) /\
+  exists tr, trace_of 1 par1 true xinit ex_read_sched = Some tr /\
+    nth_error tr 17 = Some (Acc 0 LTT true Plain) /\
+    nth_error tr 31 = Some (Acc 2 LTT true Plain) /\
+    nth_error tr 80 = Some (Acc 1 LTT false Plain) /\
+    nth_error tr 130 = Some (Acc 0 LTT true Plain) /\
+    raceb tr = false.
+Proof. split; [exact par1_flat | exact ex_read_trace]. Qed.
+Print Assumptions C09_helper_reads_example.
+
+(** full statement for the modelled locations and EVERY communicator tree (not proved for trees
+    of depth >= 2: there the ordering goes through the START / STOP_ACK message edges of several
+    hops; it is checked on recorded traces) *)
 Definition C09_model_drf_statement : Prop :=
   forall N parent ls tr, WorkersInv.tree_ok N parent -> trace_of N parent true xinit ls = Some tr -> ~ race tr.
